@@ -123,15 +123,66 @@ fn chain(
                 return;
             }
             Ok(Err(e)) => {
-                let mut r = mk_replay();
-                r["error"] = json!(format!("{:?}", e).chars().take(400).collect::<String>());
-                l.violation(format!("{}|error:to-target", kp), format!("transcode of a valid native image to {} failed: {}", t_name, e), r);
+                // A clean refusal by the encoder is not a wrong result (e.g. the JPEG XL encoder
+                // rejects images less than 2 pixels wide); it is counted, the reason is noted,
+                // and a target without any completed chain makes the run inconclusive.
+                l.count(&format!("refused_by_encoder|{}", t_name), 1);
+                let msg = format!("{:?}", e);
+                let reason: String = msg.split("source: Some(").nth(1).unwrap_or(&msg).chars().take(60).collect();
+                l.note(format!("{} encoder refused an image: {}", t_name, reason.replace('\n', " ").trim()));
                 return;
             }
             Ok(Ok(())) => {}
         }
+        l.count(&format!("encoded|{}", t_name), 1);
         if obj.meta().transfer_syntax() != t_uid {
             l.violation(format!("{}|meta-ts:to-target", kp), format!("file meta transfer syntax is {} after transcoding to {}", obj.meta().transfer_syntax(), t_uid), mk_replay());
+        }
+        // Observability for symmetric errors (an encoder and a decoder that are wrong in the same
+        // way cancel out over the round trip): where PS3.5 defines the fragment content in terms of
+        // the native frame, compare it directly — Encapsulated Uncompressed (A.4.11: one frame per
+        // fragment, native little-endian bytes, padded to even length) and Deflated Image Frame
+        // (one raw RFC 1951 stream per frame, inflated here with flate2, not with dicom-rs).
+        if t_name == "EncapsulatedUncompressed" || t_name == "DeflatedImageFrame" {
+            use dicom_core::value::Value as DV;
+            let frags: Option<Vec<Vec<u8>>> = match obj.get(Tag(0x7FE0, 0x0010)).map(|e| e.value()) {
+                Some(DV::PixelSequence(sq)) => Some(sq.fragments().iter().map(|f| f.to_vec()).collect()),
+                _ => None,
+            };
+            if let Some(frags) = frags {
+                if frags.len() == img.frames as usize {
+                    l.eval();
+                    l.count("encoded_frames_inspected", frags.len() as u64);
+                    let fb = img.frame_bytes();
+                    for (f, frag) in frags.iter().enumerate() {
+                        let want = &expected[f * fb..(f + 1) * fb];
+                        let got: Vec<u8> = if t_name == "DeflatedImageFrame" {
+                            use std::io::Read;
+                            let mut out = Vec::new();
+                            let mut d = flate2::read::DeflateDecoder::new(&frag[..]);
+                            if d.read_to_end(&mut out).is_err() {
+                                out.clear();
+                            }
+                            out
+                        } else {
+                            frag.clone()
+                        };
+                        let ok = got.len() >= fb && got.len() <= fb + 1 && &got[..fb] == want && got[fb..].iter().all(|b| *b == 0);
+                        if !ok {
+                            let mut r = mk_replay();
+                            r["frame"] = json!(f);
+                            r["expected_frame_hex"] = json!(hex_short(want, 256));
+                            r["encoded_frame_content_hex"] = json!(hex_short(&got, 256));
+                            l.violation(
+                                format!("C19|{}|encoded-frames|content", t_name),
+                                format!("fragment {} of the {} object does not hold the native bytes of frame {} ({} bytes vs {} expected)", f, t_name, f, got.len(), fb),
+                                r,
+                            );
+                            break;
+                        }
+                    }
+                }
+            }
         }
         if via_file {
             let bytes = match guarded(|| write_file(&obj)) {
@@ -176,6 +227,7 @@ fn chain(
             }
             Ok(Ok(())) => {}
         }
+        l.count(&format!("completed|{}", t_name), 1);
         if obj.meta().transfer_syntax() != TS_EXPLICIT_LE {
             l.violation(format!("{}|meta-ts:final", kp), format!("file meta transfer syntax is {} after transcoding back", obj.meta().transfer_syntax()), mk_replay());
         }
@@ -299,7 +351,7 @@ pub fn run(cfg: &Cfg) -> Outcome {
             }
         }
     }
-    let n = cfg.n(9_000, 250_000);
+    let n = cfg.n(9_000, 200_000);
     let local = run_parallel(
         cfg,
         19,
@@ -360,11 +412,20 @@ pub fn run(cfg: &Cfg) -> Outcome {
         },
     );
     base.merge(local);
+    // every target must have completed chains, otherwise nothing was observed for it
+    let missing: Vec<&str> = targets
+        .iter()
+        .filter(|(_, n, _)| base.counters.get(&format!("completed|{}", n)).copied().unwrap_or(0) < 20)
+        .map(|(_, n, _)| *n)
+        .collect();
     let mut o = Outcome::new(
         base,
         "G-IMG native images (8/16 bits allocated, stored ≤ allocated, signed/unsigned, 1/3 samples, rows/cols 1–17 (+one up to 64), 1–7 frames, odd frame sizes) in a random native source syntax → transcode(T) → [file write+read in half of the cases] → transcode(Explicit VR LE), T ∈ registered lossless encoders ∪ {Implicit LE, Explicit LE, Explicit BE, Deflated LE}: final Pixel Data bytes == generated samples (modulo one trailing pad byte), Rows/Columns/BitsAllocated/SamplesPerPixel/NumberOfFrames consistent; class = (image class, source>target, mem/file)",
     );
     o.min_evaluations = 2000;
     o.min_classes = 100;
+    if !missing.is_empty() && cfg.only_case.is_none() {
+        o.inconclusive = Some(format!("fewer than 20 completed round trips for target(s) {}", missing.join(", ")));
+    }
     o
 }
